@@ -45,3 +45,18 @@ Section Arch.
     let r := ssort key_leb a in
     firstn size (if larger_preferred then rev r else r).
 End Arch.
+
+(* Archive.remove(solution): list.remove deletes the first member that is == to the solution
+   (Individual.__eq__, see C20) and reports True; ValueError is caught and reported as False. *)
+Section Remove.
+  Context {C : Type}.
+  Variable ieq : C -> C -> bool.           (* member == solution *)
+  Fixpoint remove_first (s : C) (l : list C) : option (list C) :=
+    match l with
+    | [] => None
+    | y :: l' => if ieq y s then Some l'
+                 else match remove_first s l' with Some r => Some (y :: r) | None => None end
+    end.
+  Definition archive_remove (a : list C) (s : C) : list C * bool :=
+    match remove_first s a with Some r => (r, true) | None => (a, false) end.
+End Remove.
